@@ -134,11 +134,11 @@ snapprop("C04", "other", "Texel.Properties.C04",
     extra_trusted=["edge distance and coverage are explored with exact oracles, not proved"])
 
 snapprop("C18", "other", "Texel.Properties.C18",
-    ["Texel.C18.C18_boundary_exists", "Texel.C18.C18_no_vertex_invented", "Texel.C18.C18_dedup_subset"],
+    ["Texel.C18.C18_boundary_exists", "Texel.C18.C18_no_vertex_invented", "Texel.C18.C18_split_preserves_area", "Texel.C18.C18_dedup_subset"],
     ["snap", FUNC],
-    "partial Lean 4 proof (routed boundary exists; no returned vertex is invented: each is a routed pixel; spike removal only removes) + exact routed-run / hole-containment / signed-area oracle on cases whose model chains visit each centre at most twice",
+    "partial Lean 4 proof (routed boundary exists; no returned vertex is invented: each is a routed pixel; ring splitting cuts a ring into rings without repetition whose signed areas add up to the ring's; spike removal only removes) + exact routed-run / hole-containment / signed-area oracle on cases whose model chains visit each centre at most twice",
     "Partial proof + verified-oracle exploration: the routed boundary (the model's chains, routing proved exact) is computed for every case; for (polygon, level) pairs with max visits <= 2 the three conclusions are checked exactly on the implementation's output. "
-    "The cancellation argument of kmpDeduplicate under max visits <= 2 is not proved.",
+    "Proved for every polygon: vertices are routed pixels (C18_no_vertex_invented); splitRing neither invents nor loses area and returns rings that visit no vertex twice (C18_split_preserves_area, from the stack invariant). The cancellation argument of kmpDeduplicate under max visits <= 2 (output edges are routed runs, area preserved by spike removal) is not proved.",
     "kmp_removes_cancelling_pairs is open; the oracle decides each generated case.",
     extra_trusted=["conclusions (a),(b),(c) are explored with exact oracles, not proved"])
 
@@ -201,7 +201,7 @@ PROPS["C14"] = dict(level="proof", module="Texel.Properties.C14", translators=["
 PROPS["C15"] = dict(level="proof", module="Texel.Properties.C15", translators=[],
     technique="Lean 4 theorems on an exact integer model of tile addressing (round trip, outside -> no tile, bounding box) + differential correspondence with tms20 on every built-in set within the code's 9-decimal rounding",
     theorems=["Texel.C15.C15_roundtrip", "Texel.C15.C15_outside_left", "Texel.C15.C15_outside_right", "Texel.C15.C15_outside_row0", "Texel.C15.toNative_originCorner", "Texel.C15.C15_bbox"],
-    streams=["tile"], design_ref="DESIGN.md §6 C15",
+    streams=["tile", "tile-outside", "axis-order"], design_ref="DESIGN.md §6 C15",
     trusted=["Model.Tile works in exact integers over a common denominator; tms20 works in float64 and rounds corners to 9 decimals: corners are compared within 1e-9 + a few ulp of the extent, interior points closer than that to a tile border are not constrained",
              "the axis swap (IsLatLon / epsgAxesAreLatLon table) is outside the model: the harness applies IsLatLon itself and checks every built-in set's corners and bounding boxes in x,y order against exact rational corners"],
     level_text="Theorems for every matrix, tile and point (exact arithmetic): a point strictly inside tile (c,r) is found in (c,r) for both corner conventions, points outside the extent map to no tile, the bounding box spans the origin-side corner of tile (0,0) to that of tile (width,height). "
